@@ -287,7 +287,7 @@ impl Tbl {
         let src = src.to_vec();
         let r = guarded(async move { Ok(merge_on(ds, &tys, &st2, &src, nbatches, use_index).await) }).await;
         match r {
-            Err(p) => Err((4, p)),
+            Err(p) => Err((5, p)),
             Ok(Err(e)) => Err(e),
             Ok(Ok((ds, stats))) => {
                 self.ds = ds;
@@ -304,13 +304,20 @@ pub fn names_merge(ncols: usize) -> impl Fn(usize) -> String {
     move |i| if i < ncols { format!("source.{}", col_name(i)) } else { format!("target.{}", col_name(i - ncols)) }
 }
 
-pub fn classify_merge_error(msg: &str) -> u8 {
+/// 1 duplicate match, 2 WhenMatched::Fail hit, 3 rejected: delete-not-matched-by-source with a partial
+/// source schema (NotSupported, or the schema error raised when the DeleteIf expression is planned against
+/// the source schema), 5 a panic inside the library surfaced as an error, 4 anything else
+pub fn classify_merge_error(st: &MSettings, msg: &str) -> u8 {
     if msg.contains("Ambiguous merge insert") {
         1
     } else if msg.contains("Merge insert failed: found matching row") {
         2
     } else if msg.contains("is not supported when the source data has a different schema") {
         3
+    } else if !st.full() && matches!(st.ns, Ns::DeleteIf(_)) && msg.contains("No field named") {
+        3
+    } else if msg.contains("panicked") || msg.starts_with("PANIC") {
+        5
     } else {
         4
     }
@@ -353,7 +360,7 @@ pub async fn merge_on(ds: Arc<Dataset>, tys: &[Ty], st: &MSettings, src: &[Row],
         Ok((nds, stats)) => Ok(((*nds).clone(), (stats.num_inserted_rows, stats.num_updated_rows, stats.num_deleted_rows))),
         Err(e) => {
             let m = es(e);
-            Err((classify_merge_error(&m), m))
+            Err((classify_merge_error(st, &m), m))
         }
     }
 }
